@@ -705,7 +705,10 @@ class ItemGrader(AbstractGrader):
 
         # Add in wrong_msg if appropriate
         if best_result_with_longest_msg['msg'] == "" and best_score == 0:
-            best_result_with_longest_msg['msg'] = self.config["wrong_msg"]
+            # Work on a copy: the dictionary is the one check_response returned, and an
+            # author-defined grader may return the same object again (for this or another grader)
+            best_result_with_longest_msg = dict(best_result_with_longest_msg,
+                                                msg=self.config["wrong_msg"])
 
         return best_result_with_longest_msg
 
